@@ -290,6 +290,17 @@ def run(index: RepoIndex, rep) -> None:
               '; '.join(src(c.node)[:80] for c in calls),
               'the flood fills do not start at the agent position on the given grid',
               'fills start at the origin')
+    # the rays of the ray-traced views start at the agent's own cell (C19.R2's ray model)
+    from .c19 import RT, ray_model
+    cr = index.func(RT, 'compute_ray')
+    crw = walk_function(cr.node)
+    crp = [a.arg for a in cr.node.args.args]
+    rm = ray_model(cr, crw, crp[0], crp[1])
+    rep.check(rm['samples'] and rm['rounding'], 'C06.R4', RT, 'compute_ray', cr.node.lineno,
+              (rm['sample_text'] or rm['cell_text'])[:200],
+              'a ray does not start at the cell it is cast from (samples are not origin + '
+              'i*step*(sin, cos)): the agent\'s own cell need not be visible',
+              'rays start at the origin cell')
     filled = {src(c.node.args[0]) for c in calls if c.node.args}
     rets = [e for e in w.events if e.kind == 'return' and e.value is not None]
     for r in rets:
